@@ -82,9 +82,14 @@ fn main() {
         "C07" => drive(&checks::multi::Multi, &opts),
         "C08" => drive(&checks::dynamic::Dynamic { faults: false }, &opts),
         "C09" => drive(&checks::dynamic::Dynamic { faults: true }, &opts),
+        "C10" => drive(&checks::encodings::Encodings, &opts),
+        "C12" => drive(&checks::store::Store, &opts),
+        "C14" => drive(&checks::writers::Writers, &opts),
         "C15" => drive(&checks::satobj::SatObj, &opts),
         "C16" => drive(&checks::exchange::Exchange, &opts),
         "C17" => drive(&checks::faults::Faults, &opts),
+        "C18" => drive(&checks::callbound::CallBound, &opts),
+        "C19" => drive(&checks::equiv::Equiv, &opts),
         _ => {
             eprintln!("unknown property {}", id);
             2
